@@ -54,6 +54,10 @@ class CVRPTWAdapter(RoutingAdapter):
     sol_fn = "check_C06_sol_fixed" if CHECKER_FIXED else "check_C06_sol"
     reward_td = "reset"
     shard = 60
+    # keys of the step output compared with the row model after every step in C02 / C04 (Harness/HCVRPTW.v tw_book_obs)
+    book_keys = (("current_node", "int"), ("used_capacity", "f"), ("visited", "bits"), ("current_time", "f"))
+    book_fn = "check_book_tw"
+    book_type = "cvrptw_book"
 
     def __init__(self):
         self._envs = {}
@@ -61,7 +65,9 @@ class CVRPTWAdapter(RoutingAdapter):
 
     # ---------------------------------------------------------------- envs / variants
     def variants(self, tier):
-        return [{"num_loc": n} for n in ([3, 5, 8] if tier == "quick" else [2, 3, 4, 6, 10, 15])]
+        # num_loc = 1 and 2: degenerate but legal sizes (the checker starts with CVRPEnv's, which indexes demand columns)
+        # (listed last: the C05 enumeration budget goes to the first tiny instances met, which should stay the n = 3 ones)
+        return [{"num_loc": n} for n in ([3, 5, 8, 1, 2] if tier == "quick" else [2, 3, 4, 6, 10, 15, 1])]
 
     def make_env(self, variant):
         n = variant["num_loc"]
@@ -158,6 +164,9 @@ class CVRPTWAdapter(RoutingAdapter):
         if kind == "late-1":
             # one customer whose vehicle does not wait gets its deadline one grid unit before the planted arrival
             cands = [x for x in range(1, n + 1) if arrs[x] - 1 >= lo[x]]
+            # keep the blocked customer's window of positive length where possible (an empty window puts the instance outside
+            # the documented format: the checker then refuses it whatever the solution)
+            cands = [x for x in cands if arrs[x] - 1 > lo[x]] or cands
             if cands:
                 blocked = rng.choice(cands)
                 hi[blocked] = arrs[blocked] - 1
@@ -329,6 +338,103 @@ class CVRPTWAdapter(RoutingAdapter):
     def extra_c02(self, ctx, tier, items):
         return self.classify(ctx, items)
 
+    def batch_priority(self, row):
+        """batched checker calls: rows that are rejected for being LATE first (hand-built: a sane in-format instance whose
+        planted plan misses one deadline by one grid unit; then the planted late-1 plans) -- the deadline assert is the one
+        that reduces over the batch"""
+        it, kind, acts, v = row
+        return 0 if kind.startswith("handbuilt:late-deadline") else (1 if (kind.startswith("handbuilt:planted") and "late-1" in kind) else 2)
+
+    # ---------------------------------------------------------------- C06: instances outside the documented format
+    def ill_formed(self, rng, tier):
+        """(instance, meta, action list): planted exact-grid instances with ONE sanity fault, and a solution that the time
+        loop of the checker accepts, so that only the instance assert can (and must) refuse:
+          neg-duration     one customer's service duration is minus one grid unit
+          neg-window       one customer's window opens one grid unit before time 0
+          empty-window     lo = hi at a customer where the vehicle waits or arrives exactly then
+          cannot-return    x = last stop of the plan, the list is NOT closed by a depot visit (so the loop never drives the
+                           way back): service >= 1 unit, window start = depot deadline - distance - service + 1 unit
+        each with the planted solution (closed) and without its last depot visit; and, on the same sane base instances,
+          late-deadline    NOT ill-formed: one customer's deadline is put one grid unit before the planted start of service
+                           (window kept of positive length): an in-format instance on which the plan is late by one unit --
+                           only the deadline assert of the time loop can refuse it (rows for the batched checker calls)"""
+        out = []
+        reps = 1 if tier == "quick" else 8
+        for n in ([1, 2, 4] if tier == "quick" else [1, 2, 3, 4, 6, 10]):
+            for rep in range(reps):
+                for ill in ("neg-duration", "neg-window", "empty-window", "cannot-return", "late-deadline", "late-deadline"):
+                    s = rng.choice([4, 128, 1])
+                    td, meta = self.planted_instance(rng, n, s, rng.choice(["tight", "tight+1", "wait"]))
+                    if not meta["plan_feasible"]:
+                        continue
+                    plan = list(meta["plan"])
+                    f = float(s)
+                    tw = td["time_windows"].clone()
+                    du = td["durations"].clone()
+                    # the base instance must be sane: planted windows may have length 0 -- open them by one grid unit (the
+                    # plan stays on time), and make sure the real checker accepts the plan on the base instance
+                    for j in range(tw.shape[1]):
+                        if float(tw[0, j, 0]) >= float(tw[0, j, 1]):
+                            if float(tw[0, j, 0]) >= 1.0 / f:
+                                tw[0, j, 0] = tw[0, j, 1] - 1.0 / f       # service may start earlier: the plan stays on time
+                            else:
+                                tw[0, j, 1] = tw[0, j, 0] + 1.0 / f
+                    td = td.clone()
+                    td["time_windows"] = tw.clone()
+                    env0 = self.make_env({"num_loc": n})
+                    if not envh.verdict(env0, env0.reset(td.clone()), torch.tensor([plan], dtype=torch.int64)):
+                        continue
+                    last = [a for a in plan if a != 0][-1]
+                    x = last if ill == "cannot-return" else rng.choice([a for a in plan if a != 0])
+                    if ill == "neg-duration":
+                        du[0, x] = -1.0 / f
+                        changed = {"durations[%d]" % x: -1.0 / f}
+                    elif ill == "neg-window":
+                        tw[0, x, 0] = -1.0 / f
+                        changed = {"time_windows[%d][0]" % x: -1.0 / f}
+                    elif ill == "late-deadline":
+                        D = self.dist_matrix(TensorDict({"locs": torch.cat([td["depot"][:, None, :], td["locs"]], 1)}, batch_size=[1]))
+                        t, frm, starts = 0.0, 0, {}
+                        for a in plan:                       # exact: everything is on the 1/s grid
+                            if a == 0:
+                                t, frm = 0.0, 0
+                                continue
+                            arr = t + float(D[frm, a])
+                            starts[a] = (arr, max(arr, float(tw[0, a, 0])))
+                            t, frm = starts[a][1] + float(du[0, a]), a
+                        cands = [a for a, (arr, st) in starts.items() if arr - 1.0 / f > float(tw[0, a, 0])]
+                        if not cands:
+                            continue
+                        x = rng.choice(cands)
+                        tw[0, x, 1] = starts[x][0] - 1.0 / f
+                        changed = {"time_windows[%d][1]" % x: float(tw[0, x, 1]), "planted_arrival": starts[x][0]}
+                    elif ill == "empty-window":
+                        # service starts at max(arrival, lo) <= hi: closing the window at its opening keeps the plan on time
+                        # only if the vehicle is there by then; take hi := lo := the later of the two
+                        lo_x, hi_x = float(tw[0, x, 0]), float(tw[0, x, 1])
+                        tw[0, x, 0] = hi_x
+                        changed = {"time_windows[%d]" % x: [hi_x, hi_x]}
+                    else:
+                        H = float(tw[0, 0, 1])
+                        d = float(self.dist_matrix(TensorDict({"locs": torch.cat([td["depot"][:, None, :], td["locs"]], 1)}, batch_size=[1]))[0, x])
+                        dx = max(float(du[0, x]), rng.choice([1, 2, 5]) / f)
+                        du[0, x] = dx
+                        lo_x = H - d - dx + 1.0 / f
+                        if lo_x < 0:
+                            continue
+                        tw[0, x, 0] = lo_x
+                        tw[0, x, 1] = lo_x + rng.choice([1, 3]) / f
+                        changed = {"durations[%d]" % x: dx, "time_windows[%d]" % x: [lo_x, float(tw[0, x, 1])]}
+                    td_bad = td.clone()
+                    td_bad["time_windows"] = tw
+                    td_bad["durations"] = du
+                    m_bad = dict(meta, kind="illformed/" + ill, ill=ill, changed=changed)
+                    open_end = plan[:-1] if plan and plan[-1] == 0 else plan
+                    out.append((td_bad, m_bad, open_end))
+                    if ill not in ("cannot-return", "late-deadline"):
+                        out.append((td_bad, m_bad, plan))
+        return out
+
     # ---------------------------------------------------------------- C06: corruptions, hand-built late solutions, batched checker
     def extra_c06(self, ctx, tier, items):
         from vt.envprops import Item, CONCRETE, hexrow
@@ -398,6 +504,28 @@ class CVRPTWAdapter(RoutingAdapter):
             pairs += 1
             add(it, "batched-with-row0", a1, v, hz0=float(m0.td_reset["time_windows"][0, 0, 1]),
                 extra={"row0_instance": hexrow(m0.td_in), "row0_actions": a0})
+        # (e) ill-formed instances: the checker's instance-sanity asserts (non-negative windows / durations, windows of
+        #     positive length, "window start + distance + duration within the depot deadline") must refuse the instance
+        #     whatever the solution.  Built from planted instances so that ONLY the sanity assert can refuse: the planted
+        #     solution is otherwise accepted by the time loop.
+        n_ill = 0
+        for td_bad, m_bad, acts in self.ill_formed(rng, tier):
+            variant = {"num_loc": td_bad["locs"].shape[1]}
+            env = self.make_env(variant)
+            td_r = env.reset(td_bad.clone())
+            v = envh.verdict(env, td_r, torch.tensor([acts], dtype=torch.int64))
+            if v is None:
+                continue
+            ep = envh.Episode()
+            ep.steps = [([], a, False) for a in acts]
+            ep.checker = v
+            fake = Item(self, variant, env, td_bad, td_r, ep, m_bad, "solo")
+            if m_bad["ill"] == "late-deadline":
+                add(fake, "handbuilt:late-deadline", acts, v, extra={"changed": m_bad["changed"]})
+                continue
+            add(fake, "illformed:" + m_bad["ill"], acts, v, extra={"ill_formed": m_bad["ill"], "changed": m_bad["changed"]})
+            ctx.count("%s/c06_illformed_instance/%s/%s" % (self.name, m_bad["ill"], "accepted" if v else "rejected"))
+            n_ill += 1
         if not cases:
             return {}
         codes = coq_eval_shards("cases_C06_%s_sol" % self.name, self.header, self.sol_type, self.sol_fn, cases, shard=self.shard)
@@ -425,7 +553,15 @@ class CVRPTWAdapter(RoutingAdapter):
                                     tag="corr-" + self.name)
             ctx.broken.append("correspondence C06/%s (hand-built, corrupted and batched solutions): %d disagreement(s); first: code %d on '%s', case file %s" % (
                 self.name, nd, c, kind, path))
-        out = {"c06_solutions": len(cases), "c06_disagreements": nd, "c06_concrete": nc, "c06_batched_pairs": pairs}
+        out = {"c06_solutions": len(cases), "c06_disagreements": nd, "c06_concrete": nc, "c06_batched_pairs": pairs,
+               "c06_illformed_instances": n_ill}
+        # (d) the same corrupted / hand-built lists and the mask-made solutions as rows of batches of 2-4 different instances
+        #     handed to the real checker in ONE call (vt/envs/_base.py batched_checker): the deadline assert reduces over
+        #     the batch with .all()
+        rows = [(it, kind, acts, v) for it, kind, acts, v, extra in meta if "row0_instance" not in extra]
+        rows += [(it, "original", list(it.ep.actions), bool(it.ep.checker)) for it in done_items[: (40 if tier == "quick" else 150)]
+                 if it.ep.checker is not None and it.ep.actions]
+        out.update(self.batched_checker(ctx, tier, rows))
         out.update(self.classify(ctx, items))
         return out
 
